@@ -990,7 +990,10 @@ def run_large_sync(case, stats):
         except StopIteration:
             return StopIteration
         finally:
-            coro.close()
+            try:
+                coro.close()
+            except RuntimeError:
+                pass  # (a suspended run cannot always be torn down cleanly; that it suspended is what gets reported)
 
     if case.get("inside_asyncio"):
         import asyncio
